@@ -140,9 +140,22 @@ pub fn gen(thorough: bool, rng: &mut Rng, out: &mut Vec<String>) {
         let mut lib = crate::props::gds::gen_lib(rng, false, false);
         if i % 3 == 0 { lib.name = [" lead", "trail ", "a: b", "#hash", "\"q\"", "back\\slash", "line\nbreak", "tab\there", "~", "null", "1e3", "é𝄞", "- dash", "{}", "[x]", "yes", "'single'", "  ", "x\n  \ny"][rng.below(19) as usize].to_string(); }
         lib.units = gds21::GdsUnits(crate::props::gds::gen_real(rng, false), crate::props::gds::gen_real(rng, false));
+        // every fifth library: structure names made distinct and the references rewired to the library's OWN structures —
+        // each reference names the next structure (a forward reference: the user is stored before the used), the last one
+        // the first (backward); a converter must store the structures in the order it was given
+        if i % 5 == 0 && lib.structs.len() >= 2 {
+            let ns = lib.structs.len();
+            for (k, st) in lib.structs.iter_mut().enumerate() { st.name = format!("s{}", k); }
+            for k in 0..ns {
+                let target = format!("s{}", if k + 1 < ns { k + 1 } else { 0 });
+                let mut has = false;
+                for e in lib.structs[k].elems.iter_mut() { match e { gds21::GdsElement::GdsStructRef(x) => { x.name = target.clone(); has = true; } gds21::GdsElement::GdsArrayRef(x) => { x.name = target.clone(); has = true; } _ => {} } }
+                if !has { lib.structs[k].elems.push(gds21::GdsElement::GdsStructRef(gds21::GdsStructRef { name: target, xy: gds21::GdsPoint::new(k as i32, 1), ..Default::default() })); }
+            }
+        }
         let fmt = if i % 2 == 0 { "json" } else { "yaml" };
         out.push(format!("serde.gds {} {}", fmt, crate::gdsio::lib_s(&lib)));
-        if i % 20 == 0 && crate::gdsio::write_bytes(&lib).is_ok() { out.push(format!("serde.gdsbytes {} {}", fmt, crate::gdsio::lib_s(&lib))); }
+        if (i % 20 == 0 || i % 25 == 0) && crate::gdsio::write_bytes(&lib).is_ok() { out.push(format!("serde.gdsbytes {} {}", fmt, crate::gdsio::lib_s(&lib))); }
     }
     let mut tmp = vec![];
     crate::props::c16::gen(false, rng, &mut tmp);
